@@ -69,10 +69,19 @@ def _worker(args):
 
 def replay_record(path, timeout=300):
     """Run the replay in a fresh interpreter: exit 0 = reproduces, 2 = does not."""
+    import shutil
+    import tempfile
     env = dict(os.environ)
     env.pop("VERIF_IN_WORKER", None)
-    r = subprocess.run([sys.executable, "-m", "vf.replay", path], cwd=HERE, env=env,
-                       capture_output=True, text=True, timeout=timeout)
+    # the real code leaves temporary directories behind (spill files of the sharded writer): give every replay its own
+    # scratch TMPDIR and remove it afterwards
+    scratch = tempfile.mkdtemp(prefix="vf_replay_")
+    env["TMPDIR"] = scratch
+    try:
+        r = subprocess.run([sys.executable, "-m", "vf.replay", path], cwd=HERE, env=env,
+                           capture_output=True, text=True, timeout=timeout)
+    finally:
+        shutil.rmtree(scratch, ignore_errors=True)
     return r.returncode, (r.stdout + r.stderr)[-2000:]
 
 
